@@ -490,6 +490,207 @@ Proof.
       * reflexivity.
 Qed.
 
+(** * tiers agree: the normal form of a returned cell outside the tier-dependent classes *)
+Lemma json_eqb_refl : forall a, json_eqb a a = true.
+Proof.
+  fix IH 1. intros [| b | n | z | x | s | l | l]; cbn [json_eqb].
+  - reflexivity.
+  - destruct b; reflexivity.
+  - apply Z.eqb_refl.
+  - apply Z.eqb_refl.
+  - apply Z.eqb_refl.
+  - apply bytes_eqb_refl.
+  - induction l as [|p l IHl]; [reflexivity|]. rewrite IH, IHl. reflexivity.
+  - induction l as [|[k p] l IHl]; [reflexivity|]. rewrite bytes_eqb_refl, IH, IHl. reflexivity.
+Qed.
+
+Definition tier_known (t : ftype) (l : layout) (cp : bool) (v : stored) : bool :=
+  in_class StringRetyped t l cp v || in_class NullStringBecomesEmpty t l cp v ||
+  in_class IntegerInFloatFieldRounded t l cp v || in_class FloatWalReparsedInexact t l cp v.
+
+Definition seg_f64 (t : ftype) (l : layout) : bool :=
+  match in_seg l, phys_of t with Some _, PF64 => true | _, _ => false end.
+Definition nf (t : ftype) (l : layout) (j : json) : json :=
+  match j with
+  | JU64 n => if seg_f64 t l then JF64 (f64_of_int n) else JU64 n
+  | JI64 z => if seg_f64 t l then JF64 (f64_of_int z) else JI64 z
+  | JStr s => json_of_utf8 s
+  | other => other
+  end.
+
+Lemma returned_nf : forall t w seg j,
+  definable t = true -> allows t j = true -> wf_json j = true -> j <> JNull ->
+  let l := {| via_wal := w; in_seg := seg |} in
+  tier_known t l true (Some j) = false ->
+  returned t l true (Some j) = nf t l j.
+Proof.
+  intros t w seg j Hd Ha Hwf Hn l Hk.
+  pose proof (conforming_compat t j Hd Ha Hn) as Hc.
+  unfold tier_known in Hk. repeat (apply orb_false_iff in Hk; destruct Hk as [Hk ?]).
+  rename Hk into K2. rename H1 into K3. rename H0 into K4. rename H into K5.
+  unfold returned, nf, seg_f64. subst l. cbn [in_seg].
+  destruct (phys_of t) eqn:Hp; destruct j; cbn [compat] in Hc; try discriminate.
+  - (* var-bytes / string *)
+    cbn [in_class] in K2. rewrite Hp in K2.
+    destruct seg as [n|].
+    + rewrite tier_scalar_seg, Hp. cbn [mem_scalar scalar_of_json].
+      replace (if w then wal_scalar (SUtf8 s) else SUtf8 s) with (SUtf8 s) by (destruct w; reflexivity).
+      rewrite rt_var_utf8. cbn [in_memory in_seg negb andb] in K2.
+      apply negb_false_iff, scalar_eqb_eq in K2. rewrite K2. reflexivity.
+    + unfold tier_scalar. cbn [via_wal in_seg mem_scalar scalar_of_json].
+      replace (if w then wal_scalar (SUtf8 s) else SUtf8 s) with (SUtf8 s) by (destruct w; reflexivity).
+      reflexivity.
+  - (* I64 column, non-negative *)
+    cbn [wf_json] in Hwf. assert (Hr : 0 <= n <= i64_max) by (unfold i64_max, i64_min, u64_max in *; lia).
+    assert (Es : scalar_of_json (JU64 n) = SInt n) by (cbn [scalar_of_json]; destruct (Z.leb_spec n i64_max); [reflexivity|unfold i64_max, i64_min, u64_max in *; lia]).
+    assert (Ej : json_of_scalar (SInt n) = JU64 n) by (cbn [json_of_scalar]; destruct (Z.ltb_spec n 0); [unfold i64_max, i64_min, u64_max in *; lia|reflexivity]).
+    destruct seg as [k|].
+    + rewrite tier_scalar_seg, Hp. cbn [mem_scalar]. rewrite Es.
+      replace (if w then wal_scalar (SInt n) else SInt n) with (SInt n) by (destruct w; reflexivity).
+      rewrite rt_i64_int by (unfold i64_min, i64_max in *; lia). exact Ej.
+    + unfold tier_scalar. cbn [via_wal in_seg mem_scalar]. rewrite Es.
+      replace (if w then wal_scalar (SInt n) else SInt n) with (SInt n) by (destruct w; reflexivity).
+      exact Ej.
+  - (* I64 column, negative *)
+    cbn [wf_json] in Hwf.
+    assert (Ej : json_of_scalar (SInt z) = JI64 z) by (cbn [json_of_scalar]; destruct (Z.ltb_spec z 0); [reflexivity|unfold i64_max, i64_min, u64_max in *; lia]).
+    destruct seg as [k|].
+    + rewrite tier_scalar_seg, Hp. cbn [mem_scalar scalar_of_json].
+      replace (if w then wal_scalar (SInt z) else SInt z) with (SInt z) by (destruct w; reflexivity).
+      rewrite rt_i64_int by (unfold i64_min, i64_max in *; lia). exact Ej.
+    + unfold tier_scalar. cbn [via_wal in_seg mem_scalar scalar_of_json].
+      replace (if w then wal_scalar (SInt z) else SInt z) with (SInt z) by (destruct w; reflexivity).
+      exact Ej.
+  - (* U64 column *)
+    cbn [wf_json] in Hwf. assert (Hr : 0 <= n <= u64_max) by (unfold i64_max, i64_min, u64_max in *; lia).
+    assert (Ej : json_of_scalar (scalar_of_json (JU64 n)) = JU64 n).
+    { cbn [scalar_of_json]. destruct (Z.leb_spec n i64_max).
+      - cbn [json_of_scalar]. destruct (Z.ltb_spec n 0); [unfold i64_max, i64_min, u64_max in *; lia|reflexivity].
+      - cbn [json_of_scalar]. apply json_of_utf8_big. unfold i64_max, i64_min, u64_max in *; lia. }
+    assert (Ew : (if w then wal_scalar (scalar_of_json (JU64 n)) else scalar_of_json (JU64 n)) = scalar_of_json (JU64 n)).
+    { destruct w; [|reflexivity]. cbn [scalar_of_json]. destruct (n <=? i64_max); reflexivity. }
+    destruct seg as [k|].
+    + rewrite tier_scalar_seg, Hp. cbn [mem_scalar]. rewrite Ew.
+      assert (Er : rt PU64 (scalar_of_json (JU64 n)) = u64_scalar n).
+      { cbn [scalar_of_json]. destruct (Z.leb_spec n i64_max); [apply rt_u64_int|apply rt_u64_big]; unfold i64_max, i64_min, u64_max in *; lia. }
+      rewrite Er. apply json_of_u64_scalar. exact Hr.
+    + unfold tier_scalar. cbn [via_wal in_seg mem_scalar]. rewrite Ew. exact Ej.
+  - (* F64 column, unsigned integer value *)
+    cbn [wf_json] in Hwf. assert (Hr : 0 <= n <= u64_max) by (unfold i64_max, i64_min, u64_max in *; lia).
+    assert (Ej : json_of_scalar (scalar_of_json (JU64 n)) = JU64 n).
+    { cbn [scalar_of_json]. destruct (Z.leb_spec n i64_max).
+      - cbn [json_of_scalar]. destruct (Z.ltb_spec n 0); [unfold i64_max, i64_min, u64_max in *; lia|reflexivity].
+      - cbn [json_of_scalar]. apply json_of_utf8_big. unfold i64_max, i64_min, u64_max in *; lia. }
+    assert (Ew : (if w then wal_scalar (scalar_of_json (JU64 n)) else scalar_of_json (JU64 n)) = scalar_of_json (JU64 n)).
+    { destruct w; [|reflexivity]. cbn [scalar_of_json]. destruct (n <=? i64_max); reflexivity. }
+    destruct seg as [k|].
+    + rewrite tier_scalar_seg, Hp. cbn [mem_scalar]. rewrite Ew.
+      assert (Er : rt PF64 (scalar_of_json (JU64 n)) = f64_cell_scalar (f64_of_int n)).
+      { cbn [scalar_of_json]. unfold u64_max in Hr. destruct (Z.leb_spec n i64_max); [apply rt_f64_int|apply rt_f64_big]; unfold i64_max, i64_min, u64_max in *; lia. }
+      rewrite Er. cbn [in_class in_memory in_seg negb andb] in K4. rewrite Hp in K4.
+      unfold int_inexact_as_f64 in K4. apply negb_false_iff in K4.
+      unfold f64_cell_scalar. rewrite (float_is_int_finite _ _ K4). cbn [json_of_scalar].
+      rewrite (float_is_int_finite _ _ K4). reflexivity.
+    + unfold tier_scalar. cbn [via_wal in_seg mem_scalar]. rewrite Ew. exact Ej.
+  - (* F64 column, negative integer value *)
+    cbn [wf_json] in Hwf.
+    assert (Ej : json_of_scalar (SInt z) = JI64 z) by (cbn [json_of_scalar]; destruct (Z.ltb_spec z 0); [reflexivity|unfold i64_max, i64_min, u64_max in *; lia]).
+    destruct seg as [k|].
+    + rewrite tier_scalar_seg, Hp. cbn [mem_scalar scalar_of_json].
+      replace (if w then wal_scalar (SInt z) else SInt z) with (SInt z) by (destruct w; reflexivity).
+      rewrite rt_f64_int by (unfold i64_min in *; lia).
+      cbn [in_class in_memory in_seg negb andb] in K4. rewrite Hp in K4.
+      unfold int_inexact_as_f64 in K4. apply negb_false_iff in K4.
+      unfold f64_cell_scalar. rewrite (float_is_int_finite _ _ K4). cbn [json_of_scalar].
+      rewrite (float_is_int_finite _ _ K4). reflexivity.
+    + unfold tier_scalar. cbn [via_wal in_seg mem_scalar scalar_of_json].
+      replace (if w then wal_scalar (SInt z) else SInt z) with (SInt z) by (destruct w; reflexivity).
+      exact Ej.
+  - (* F64 column, float value *)
+    cbn [wf_json] in Hwf. assert (Hf : f64_is_finite bits = true) by lia.
+    assert (Ew : (if w then wal_scalar (SFloat bits) else SFloat bits) = SFloat bits).
+    { destruct w; [|reflexivity]. cbn [in_class via_wal andb] in K5. unfold float_wal_inexact in K5.
+      apply negb_false_iff, scalar_eqb_eq in K5. exact K5. }
+    destruct seg as [k|].
+    + rewrite tier_scalar_seg, Hp. cbn [mem_scalar scalar_of_json]. rewrite Ew, rt_f64_float.
+      unfold f64_cell_scalar. rewrite Hf. cbn [json_of_scalar]. rewrite Hf. reflexivity.
+    + unfold tier_scalar. cbn [via_wal in_seg mem_scalar scalar_of_json]. rewrite Ew.
+      cbn [json_of_scalar]. rewrite Hf. reflexivity.
+  - (* Bool column *)
+    destruct seg as [k|].
+    + rewrite tier_scalar_seg, Hp. cbn [mem_scalar scalar_of_json].
+      replace (if w then wal_scalar (SBool b) else SBool b) with (SBool b) by (destruct w; reflexivity).
+      rewrite rt_bool. reflexivity.
+    + unfold tier_scalar. cbn [via_wal in_seg mem_scalar scalar_of_json].
+      replace (if w then wal_scalar (SBool b) else SBool b) with (SBool b) by (destruct w; reflexivity).
+      reflexivity.
+Qed.
+
+Lemma returned_null : forall t l cp v,
+  (v = Some JNull \/ v = None) -> in_class NullStringBecomesEmpty t l cp v = false ->
+  returned t l cp v = JNull.
+Proof.
+  intros t [w seg] cp v Hv K3.
+  assert (Em : mem_scalar v = SNull) by (destruct Hv; subst v; reflexivity).
+  unfold returned, tier_scalar. cbn [via_wal in_seg]. rewrite Em.
+  replace (if w then wal_scalar SNull else SNull) with SNull by (destruct w; reflexivity).
+  destruct seg as [n|]; [|reflexivity].
+  destruct cp; [|reflexivity].
+  rewrite iter_compact_fix. fold (rt (phys_of t) SNull).
+  cbn [in_class in_memory in_seg negb andb] in K3.
+  destruct (phys_of t) eqn:Hp.
+  - destruct Hv; subst v; discriminate.
+  - rewrite rt_null by discriminate. reflexivity.
+  - rewrite rt_null by discriminate. reflexivity.
+  - rewrite rt_null by discriminate. reflexivity.
+  - rewrite rt_null by discriminate. reflexivity.
+Qed.
+
+Theorem tiers_agree_outside_known : forall t l1 l2 cp1 cp2 v,
+  definable t = true -> conforming t v = true ->
+  col_consistent cp1 v = true -> col_consistent cp2 v = true ->
+  tier_known t l1 cp1 v = false -> tier_known t l2 cp2 v = false ->
+  json_eqb (returned t l1 cp1 v) (returned t l2 cp2 v) = true.
+Proof.
+  intros t l1 l2 cp1 cp2 v Hd Hc H1 H2 K1 K2.
+  assert (Hnull : v = Some JNull \/ v = None ->
+                  json_eqb (returned t l1 cp1 v) (returned t l2 cp2 v) = true).
+  { intros Hv. unfold tier_known in K1, K2.
+    repeat (apply orb_false_iff in K1; destruct K1 as [K1 ?]). repeat (apply orb_false_iff in K2; destruct K2 as [K2 ?]).
+    rewrite !returned_null by assumption. reflexivity. }
+  destruct v as [j|]; [|apply Hnull; right; reflexivity].
+  destruct (json_eqb j JNull) eqn:En.
+  { destruct j; try discriminate. apply Hnull. left. reflexivity. }
+  assert (Hn : j <> JNull) by (intros ->; discriminate).
+  cbn [conforming] in Hc. apply andb_true_iff in Hc. destruct Hc as [Ha Hwf].
+  cbn [col_consistent] in H1, H2. subst cp1 cp2.
+  destruct l1 as [w1 s1], l2 as [w2 s2].
+  rewrite (returned_nf t w1 s1 j Hd Ha Hwf Hn K1), (returned_nf t w2 s2 j Hd Ha Hwf Hn K2).
+  unfold nf, seg_f64. cbn [in_seg].
+  (* the integer-in-float-field facts of the segment layouts *)
+  assert (I1 : forall n z, s1 = Some n -> phys_of t = PF64 -> (j = JU64 z \/ j = JI64 z) -> float_is_int (f64_of_int z) z = true).
+  { intros n z -> Hp Hj. unfold tier_known in K1. repeat (apply orb_false_iff in K1; destruct K1 as [K1 ?]).
+    cbn [in_class in_memory in_seg negb andb] in H0. rewrite Hp in H0.
+    destruct Hj as [-> | ->]; unfold int_inexact_as_f64 in H0; apply negb_false_iff in H0; exact H0. }
+  assert (I2 : forall n z, s2 = Some n -> phys_of t = PF64 -> (j = JU64 z \/ j = JI64 z) -> float_is_int (f64_of_int z) z = true).
+  { intros n z -> Hp Hj. unfold tier_known in K2. repeat (apply orb_false_iff in K2; destruct K2 as [K2 ?]).
+    cbn [in_class in_memory in_seg negb andb] in H0. rewrite Hp in H0.
+    destruct Hj as [-> | ->]; unfold int_inexact_as_f64 in H0; apply negb_false_iff in H0; exact H0. }
+  destruct j; try apply json_eqb_refl.
+  - destruct s1 as [n1|], s2 as [n2|]; destruct (phys_of t) eqn:Hp; cbn [json_eqb]; try apply Z.eqb_refl;
+      first [ eapply I1; [reflexivity|reflexivity|left; reflexivity] | eapply I2; [reflexivity|reflexivity|left; reflexivity] ].
+  - destruct s1 as [n1|], s2 as [n2|]; destruct (phys_of t) eqn:Hp; cbn [json_eqb]; try apply Z.eqb_refl;
+      first [ eapply I1; [reflexivity|reflexivity|right; reflexivity] | eapply I2; [reflexivity|reflexivity|right; reflexivity] ].
+Qed.
+
+(** tiers disagree inside the classes: the same stored value, two layouts *)
+Theorem tiers_agree_refuted :
+  json_eqb (returned TStr L_mem true (Some (JStr [49; 50; 51]%N))) (returned TStr L_seg true (Some (JStr [49; 50; 51]%N))) = false /\
+  json_eqb (returned (TOpt TStr) L_mem true (Some JNull)) (returned (TOpt TStr) L_seg true (Some JNull)) = false /\
+  json_eqb (returned TF64 L_mem true (Some (JU64 9007199254740993))) (returned TF64 L_seg true (Some (JU64 9007199254740993))) = false /\
+  json_eqb (returned TF64 L_mem true (Some (JF64 4646557125919078934))) (returned TF64 L_wal true (Some (JF64 4646557125919078934))) = false.
+Proof. repeat split; vm_compute; reflexivity. Qed.
+
 (** * a zone column is read back cell by cell *)
 Lemma nat_iter_map : forall (A : Type) (f : A -> A) n (l : list A),
   Nat.iter n (map f) l = map (Nat.iter n f) l.
@@ -598,3 +799,23 @@ Corollary not_candidate_not_retyped : forall s, retype_candidate s = false -> st
 Proof.
   intros s H. unfold string_retyped. rewrite (proj1 (string_retyped_characterised s) H), scalar_eqb_refl. reflexivity.
 Qed.
+
+(** the hypotheses of the positive theorems are satisfiable in every tier: a u64 above i64::MAX, i64::MIN,
+    a float, a non-ASCII string, "NaN" (not re-typed), an enum variant, a time, nulls and absent keys *)
+Definition L_all : list layout :=
+  [L_mem; L_wal; L_seg; L_cmp; {| via_wal := true; in_seg := Some 0%nat |}; {| via_wal := true; in_seg := Some 3%nat |}].
+Definition sample_inputs : list (ftype * stored) :=
+  [(TU64, Some (JU64 18446744073709551615)); (TOpt TU64, Some (JU64 9223372036854775808));
+   (TI64, Some (JI64 (-9223372036854775808))); (TI64, Some (JU64 9223372036854775807));
+   (TF64, Some (JF64 4609434218613702656)); (TF64, Some (JU64 3)); (TF64, Some (JI64 (-9007199254740992)));
+   (TStr, Some (JStr [104; 195; 169; 108; 108; 111; 32; 119; 195; 182; 114; 108; 100]%N));
+   (TStr, Some (JStr [78; 97; 78]%N)); (TStr, Some (JStr []));
+   (TEnum [[97; 97]%N; [98]%N], Some (JStr [97; 97]%N));
+   (TTime, Some (JU64 1700000000)); (TOpt TDate, Some JNull); (TOpt TI64, None); (TOpt TBool, Some (JBool true));
+   (TBool, Some (JBool false)); (TOpt TF64, Some JNull)].
+Example roundtrip_outside_known_example :
+  forallb (fun l => forallb (fun tv =>
+     definable (fst tv) && conforming (fst tv) (snd tv) && col_consistent true (snd tv) &&
+     negb (known (fst tv) l true (snd tv)) &&
+     json_eqb (returned (fst tv) l true (snd tv)) (expected (snd tv))) sample_inputs) L_all = true.
+Proof. vm_compute. reflexivity. Qed.
